@@ -28,9 +28,14 @@ func (w *Worker) modExp(g, x, m BigVal) BigVal {
 		return w.modExpCircuit(g, x, m)
 	}
 	// UF mode
-	gw := mw + 1
-	gt := w.bigTerm(w.bigMod(g, m), gw)
-	gt = tc.Extract(tc.Sext(gt, gw+1), mw-1, 0) // unsigned, reduced base
+	var gt *Term
+	if g.T != nil && g.T.Op == OpConcat && len(g.T.A) == 2 && g.T.A[0].isZero() && g.T.A[1].W == mw && w.isModexpResult(g.T.A[1]) {
+		gt = g.T.A[1] // a previous result for the same modulus: already reduced
+	} else {
+		gw := mw + 1
+		gt = w.bigTerm(w.bigMod(g, m), gw)
+		gt = tc.Extract(tc.Sext(gt, gw+1), mw-1, 0) // unsigned, reduced base
+	}
 	xw := bigWidth(x) - 1
 	if xw < 8 {
 		xw = 8
@@ -39,22 +44,39 @@ func (w *Worker) modExp(g, x, m BigVal) BigVal {
 	// normalised to multiples of 64 bits to keep the number of UFs small
 	xw = (xw + 63) / 64 * 64
 	xt := tc.Extract(tc.Sext(w.bigTerm(x, 2), xw+2), xw-1, 0)
-	name := fmt.Sprintf("modexp_m%d_%s_x%d", mw, shortHash(m.C), xw)
-	r := tc.UF(name, mw, gt, xt)
-	w.assertSilently(tc.Cmp(OpUlt, r, tc.ConstBig(mw, m.C)))
-	// commutativity instance: if the base is itself MODEXP(b, y) then
-	// MODEXP(MODEXP(b,y),x) = MODEXP(MODEXP(b,x),y)
-	if gt.Op == OpUF && gt.Name != "" && len(gt.A) == 2 && gt.W == mw && sameModulus(gt.Name, name) {
-		b, y := gt.A[0], gt.A[1]
-		nameY := fmt.Sprintf("modexp_m%d_%s_x%d", mw, shortHash(m.C), xt.W)
-		inner := tc.UF(nameY, mw, b, xt)
-		nameX := fmt.Sprintf("modexp_m%d_%s_x%d", mw, shortHash(m.C), y.W)
-		other := tc.UF(nameX, mw, inner, y)
-		w.assertSilently(tc.Eq(r, other))
-		w.assertSilently(tc.Cmp(OpUlt, inner, tc.ConstBig(mw, m.C)))
+	mk := func(base, exp *Term) *Term {
+		name := fmt.Sprintf("modexp_m%d_%s_x%d", mw, shortHash(m.C), exp.W)
+		r := tc.UF(name, mw, base, exp)
+		if !w.isModexpResult(r) {
+			w.modexps = append(w.modexps, r)
+			w.assertSilently(tc.Cmp(OpUlt, r, tc.ConstBig(mw, m.C)))
+			if mw >= 256 {
+				// generic-group assumption for DH-sized moduli: distinct
+				// (base, exponent) pairs give values that differ in the first 8 bytes
+				w.ufInjective(name, r)
+			}
+		}
+		return r
 	}
-	w.modexps = append(w.modexps, r)
-	return w.normBig(BigVal{T: tc.Zext(r, mw+1)})
+	// (b^y)^x = (b^x)^y: nested exponentiations are built in a canonical order
+	// of the exponents, so that both parties' shared secrets are the same term
+	if gt.Op == OpUF && len(gt.A) == 2 && gt.W == mw && w.isModexpResult(gt) && sameModulus(gt.Name, fmt.Sprintf("modexp_m%d_%s_x%d", mw, shortHash(m.C), xt.W)) {
+		b, y := gt.A[0], gt.A[1]
+		if xt.id < y.id {
+			inner := mk(b, xt)
+			return w.normBig(BigVal{T: tc.Zext(mk(inner, y), mw+1)})
+		}
+	}
+	return w.normBig(BigVal{T: tc.Zext(mk(gt, xt), mw+1)})
+}
+
+func (w *Worker) isModexpResult(t *Term) bool {
+	for _, r := range w.modexps {
+		if r == t {
+			return true
+		}
+	}
+	return false
 }
 
 func sameModulus(a, b string) bool {
